@@ -129,7 +129,7 @@ func TestVerif_C07(t *testing.T) {
 	}
 	if vfOnlySub("gen") {
 		vfRun(t, vfSub[c07Case]{
-			Prop: "C07", Name: "gen", Checks: vfN(60000, 3000000),
+			Prop: "C07", Name: "gen", Checks: vfN(60000, 40000000),
 			Gen: func(t *rapid.T) c07Case {
 				var x []byte
 				switch rapid.IntRange(0, 4).Draw(t, "k") {
